@@ -134,7 +134,7 @@ PROPS["C07"] = dict(
             simple("tokens", "c07_synthetic", args={"quick": ["--stage", "tokens"], "thorough": ["--stage", "tokens"]}, deadline={"quick": 200, "thorough": 3000})],
     explanation="gen: synthetic universe of section 4 (38k descriptions quick). bound: 117..131 levels x 6 shapes. tokens: all strings of <= 4 (5) tokens "
                 "over a 24-token alphabet + deletions/duplications of 5 base descriptions.",
-    bounds={"quick": "universe quick scope; token strings <= 4 tokens", "thorough": "universe thorough scope; token strings <= 5 tokens"},
+    bounds={"quick": "universe quick scope (5 generator families; attached-NUMA families also loaded with the default filters and with each normal type filtered out); token strings <= 4 tokens", "thorough": "universe thorough scope; token strings <= 5 tokens"},
     assumptions=COMMON_ASSUMPTIONS + ["descriptions are loaded with every type kept; Group and Die levels are subject to the documented merging and are not counted",
                                       "interleaved indexes= specifications are only checked through well-formedness and the export/import fixpoint, explicit permutations exactly"],
 )
@@ -174,7 +174,7 @@ PROPS["C05"] = dict(
     stages=_c05,
     explanation="Four processes per partition set (nolibxml/libxml export x import, chosen through HWLOC_LIBXML_EXPORT/IMPORT because the choice is cached per process).",
     bounds={"quick": "fixtures + every third corpus file x 2 configurations; U_small x 4 configurations with lean depth-1 alphabets",
-            "thorough": "whole corpus; full depth-1 alphabets"},
+            "thorough": "whole corpus; full depth-1 alphabets"},  # every history state is also exported twice before any other consulting call (cold export)
     assumptions=COMMON_ASSUMPTIONS + ["names/infos use printable characters only (non-printable ones are documented to be dropped)",
                                       "states already ill-formed because of a known C02 finding are skipped"],
 )
@@ -214,7 +214,7 @@ PROPS["C11"] = dict(
     design_ref="DESIGN.md 5 (C11)",
     stages=[simple("types", "c11_types", deadline={"quick": 150, "thorough": 2000})],
     explanation="Objects come from all fixtures, a generated XML with 134 OS devices, and 4 synthetic topologies; flag words are the 64 subsets of the six snprintf flags.",
-    bounds={"quick": "strings <= 4 letters", "thorough": "strings <= 5 letters"},
+    bounds={"quick": "strings <= 4 letters; fixtures, 4 synthetic shapes and the states one and two Group insertions away from the small roots; every size 0..needed+1 and a generous buffer", "thorough": "strings <= 5 letters"},
     assumptions=COMMON_ASSUMPTIONS + ["only the known OS-device type bits can be printed: the parse-back comparison masks unknown bits"],
 )
 
@@ -263,7 +263,7 @@ PROPS["C16"] = dict(
             # the XML backend is chosen once per process: the same enumeration with the built-in exporter/importer
             simple("nolibxml", "c16_diff", parts=16, deadline={"quick": 120, "thorough": 1200}, env={"HWLOC_LIBXML": "0"})],
     explanation="B is produced by editing A's own XML export (rename, name set/unset, info value / add / remove / duplicate, NUMA local memory) and through the API (Misc insertion, restrict, subtype).",
-    bounds={"quick": "<= 2 edits, <= 3 hand-built entries", "thorough": "same scope"},
+    bounds={"quick": "<= 2 edits, <= 3 hand-built entries (reverse applications start from the forward state); diffs of every length 1..320 on pu:320; each stage once per XML backend", "thorough": "same scope, lengths 1..640"},
     assumptions=COMMON_ASSUMPTIONS + ["A and B are both loaded from XML so that they went through the same pipeline"],
 )
 
@@ -278,7 +278,7 @@ PROPS["C14"] = dict(
     design_ref="DESIGN.md 5 (C14)",
     stages=[simple("memattrs", "c14_memattrs", parts=48, deadline={"quick": 120, "thorough": 3000})],
     explanation="Roots: node:2 pu:2, node:4 pu:1, cpuless.xml (CPU-less nodes), nested.xml (nested locality), node:1 pu:2.",
-    bounds={"quick": "depth 2 plus a third step restricted to restrict/refresh/dup/XML after histories that stored values", "thorough": "depth 3"},
+    bounds={"quick": "depth 2 plus a third step restricted to restrict/refresh/dup/XML after histories that stored values; after restrict/dup/XML every query kind also runs first and alone on a freshly rebuilt state", "thorough": "depth 3"},
     assumptions=COMMON_ASSUMPTIONS + ["stored cpuset initiators are pairwise disjoint (the domain the property defines); overlapping cpusets are only used as queries",
                                       "best-of results are accepted when they are an optimal stored entry (ties allowed)"],
 )
@@ -293,7 +293,7 @@ PROPS["C09"] = dict(
     design_ref="DESIGN.md 5 (C09), 6.1",
     stages=[simple("helpers", "c09_helpers", parts=50, deadline={"quick": 120, "thorough": 2400})],
     explanation="States: U_small under the default and the keep-all+INCLUDE_DISALLOWED configurations, plus the distinct states after one restrict of the (lean) restrict alphabet.",
-    bounds={"quick": "restrict successors of the lean alphabet", "thorough": "restrict successors with subsets up to 4 elements"},
+    bounds={"quick": "successors by one restrict or one Group insertion of the lean alphabet", "thorough": "successors with subsets up to 4 elements"},
     assumptions=COMMON_ASSUMPTIONS + ["hwloc_distrib: pairwise disjointness is demanded for until=INT_MAX and n <= #PUs only (with a cut-off the documented result repeats cpusets)",
                                       "hwloc_get_closest_objs and hwloc_get_common_ancestor_obj are driven with objects that have CPU sets"],
 )
@@ -309,7 +309,7 @@ PROPS["C19"] = dict(
     design_ref="DESIGN.md 5 (C19), 2.5",
     stages=[simple("shmem", "c19_shmem", parts=100, deadline={"quick": 120, "thorough": 3000})],
     explanation="The guard page makes 'length suffices' decidable by the MMU rather than by inspection; the read-only mapping does the same for 'modifiers do not touch the mapping'.",
-    bounds={"quick": "modifying ops on root states and every 10th depth-1 state", "thorough": "modifying ops on every depth-1 state"},
+    bounds={"quick": "modifying ops (incl. refresh) on root states and every 10th depth-1 state; cold pass (get_length, write, adopt right after the history) on every state", "thorough": "modifying ops on every depth-1 state"},
     assumptions=COMMON_ASSUMPTIONS + ["object-level edits that take no topology argument (infos, subtype) are documented as forbidden on adopted topologies and are not driven",
                                       "writer and adopter are the same process (a second process would only change which addresses are free)"],
 )
@@ -372,7 +372,7 @@ PROPS["C10"] = dict(
     explanation="Synthetic and XML topologies loaded with IS_THISSYSTEM run the native Linux hooks; the seam then stubs the system calls, so the "
                 "sets handed to the operating system are observed for topologies with several NUMA nodes and disallowed CPUs although the sandbox "
                 "has one node. On the live machine calls are forwarded and the caller's binding is restored after each case.",
-    bounds={"quick": "cpubind: subsets of <= 9 positions; membind: subsets of <= 7 positions; 26 cpubind and 76 membind flag words, 12 policies; live: all 65535 subsets of 16 CPUs with the THREAD variant, process/pid/thread variants on sets of weight <= 2 or >= 15; loads bound to singletons, neighbour pairs and a fifth of the other pairs x 5 component selections x 4 flag words",
+    bounds={"quick": "cpubind: subsets of <= 9 positions; membind: subsets of <= 7 positions; 26 cpubind and 76 membind flag words, 12 policies; live: all 65535 subsets of 16 CPUs with the THREAD variant, process/pid/thread variants on sets of weight <= 2 or >= 15; loads bound to singletons, neighbour pairs and a fifth of the other pairs x 5 component selections x 6 flag words (incl. RESTRICT_TO_CPUBINDING / RESTRICT_TO_MEMBINDING with IS_THISSYSTEM); singletons and the whole set also loaded from a second thread while the main thread is bound to all or to the other CPUs",
             "thorough": "cpubind: <= 11 positions; membind: <= 8 positions; live: all variants on all subsets; loads bound to every singleton and pair"},
     assumptions=COMMON_ASSUMPTIONS + ["set_area_membind/get_area_* are called with a non-zero length (a zero length is documented as a no-op)",
                                       "the from-mask of migrate_pages is a wildcard, only the destination mask is compared with the legal set",
@@ -438,8 +438,8 @@ PROPS["C17"] = dict(
     explanation="A reader that stores into the shared topology races with every other reader whatever the schedule, so the MMU check decides the "
                 "topology part independently of the bound; schedules matter for the process-wide state (component registry, cached environment "
                 "variables), which is where the scheduling points are.",
-    bounds={"quick": "readers: 2 threads, 3 topologies each as loaded and annotated+restricted+refreshed, all 45 unordered pairs of 9 battery groups, preemption bound 2; independent: 2 threads, all 10 unordered pairs of 4 histories, preemption bound 1",
-            "thorough": "readers: 3 threads, 6 topologies in both variants, all 165 unordered triples, bound 3; independent: 3 threads, all 20 triples, bound 2 (tuples that exceed the budget are reported with the bound they completed)"},
+    bounds={"quick": "readers: 2 threads, 3 topologies each as loaded and annotated+restricted+refreshed (the richest one also loaded with NO_DISTANCES / NO_MEMATTRS / NO_CPUKINDS before the annotation), all 55 unordered pairs of 10 battery groups, preemption bound 2; independent: 2 threads, all 21 unordered pairs of 6 histories (incl. a diff history with a failing export and an annotate history), preemption bound 1; the component registry must be released at the end of every execution",
+            "thorough": "readers: 3 threads, 6 topologies in all five variants, all 220 unordered triples of 10 groups, bound 3; independent: 3 threads, all 56 triples of 6 histories, bound 2 (tuples that exceed the budget are reported with the bound they completed)"},
     assumptions=COMMON_ASSUMPTIONS + ["sequentially consistent memory: weak-memory reorderings are not modelled",
                                       "races are detected on the library's own global variables and on the shared topology; libc, libxml2 (the built-in XML backend is forced) and the kernel are trusted",
                                       "an access to a global from inside a system call does not trap (none is known in the library)",
